@@ -25,6 +25,7 @@ def main(argv=None):
     ap.add_argument("--no-selftest", action="store_true")
     a = ap.parse_args(argv)
     prop = a.prop.upper()
+    sys.setrecursionlimit(20000)
     # guard rails: an analysis that explodes must end as ANALYSIS-ERROR, not take the machine down
     import resource, signal
     try:
